@@ -52,6 +52,13 @@ def check_rendering(rendering, text, styles, flags, prefix, dirty_variant=0, sta
                 got=list(clean.final_state()), flags=[o, rs, re_], prior='default')
     if stats is not None:
         stats['renderings_checked'] = stats.get('renderings_checked', 0) + 1
+        # how the optimiser bridged neighbouring style states (reach probes)
+        changes = sum(1 for i in range(1, len(styles)) if styles[i] != styles[i - 1]) + (1 if styles and styles[0] else 0)
+        key = ('probe:sgr_more_than_style_changes' if clean.sgr_count > changes + (1 if re_ else 0)
+               else 'probe:sgr_equals_style_changes')
+        stats[key] = stats.get(key, 0) + 1
+        if '\x1b[0;' in rendering or '\x1b[0m' in rendering:
+            stats['probe:reset_and_reemit'] = stats.get('probe:reset_and_reemit', 0) + 1
 
 
 def check_value(v, obs, prefix='display', dirty_variant=0, stats=None, combos=FLAG_COMBOS, with_default=True):
